@@ -322,9 +322,19 @@ fn w_live(ctx: &mut Ctx) {
         if solver.info.iterations == 0 {
             continue;
         }
+        // phase 0: the state left by the solve above; phase 1: the same solver asked to solve again with
+        // max_iter = 0, i.e. the identity-scaling KKT system that default_start assembles over the old state
+        for phase in 0..2usize {
+        if phase == 1 {
+            solver.settings.max_iter = 0;
+            if problem::solve_observed(&mut solver).is_err() {
+                break;
+            }
+            ctx.bump("live_resolve_identity_scaling_snapshots");
+        }
         let snap = solver.kktsystem.verif_snapshot();
         ctx.eval(1);
-        ctx.nontrivial_hash(p.hash() ^ case);
+        ctx.nontrivial_hash(p.hash() ^ case ^ phase as u64);
         ctx.bump(&format!("engine_{}", snap.engine.name));
         let (n, m, pd) = (snap.n, snap.m, snap.p);
         let dim = n + m + pd;
@@ -494,10 +504,12 @@ fn w_live(ctx: &mut Ctx) {
             ctx.bump("live_with_sparse_expansion");
         }
         if let Some((o, d)) = fail {
+            let o = if phase == 1 { format!("{o}:after_resolve") } else { o };
             ctx.violation(&o, &o, wl, case, detail(d));
         }
-        if case < 2 {
+        if case < 2 && phase == 0 {
             ctx.sample(json!({"workload": wl, "n": n, "m": m, "p": pd, "engine": snap.engine.name, "iterations": solver.info.iterations, "schur_rel_err": worst}));
+        }
         }
     }
 }
